@@ -152,7 +152,7 @@ PROPS['C08']['kani'] = {
 }
 PROPS['C08']['level'] = 'other'
 PROPS['C08']['verus'] = ['u_polycalc', 'u_segment']
-PROPS['C08']['assumptions'] += [PARAM, 'bounded: Piecewise::derivative wiring checked for N <= 4 pieces (Kani, loops unwound)']
+PROPS['C08']['assumptions'] += [PARAM, 'bounded: Piecewise::derivative wiring checked for N <= 4 and N = 20 pieces (Kani, loops unwound)']
 PROPS['C08']['explanation'] += (' Piecewise/Segment::derivative wiring: Kani harness with recording OpTag pieces: same number of pieces, same order, '
                                 'every breakpoint bit-identical, each piece differentiated exactly once (N <= 4; Segment level loop-free, complete).')
 
@@ -190,7 +190,7 @@ PROPS['C11'] = {
                    '(STag -> ITag{id,k}, evaluate logs its argument): same number/order of pieces and bit-identical breakpoints, piece 0 anchored at the '
                    'given knot (indefinite: untranslated), piece i anchored at (end_{i-1}, F_{i-1}(end_{i-1})) so adjacent pieces agree at every interior '
                    'breakpoint; by-value and by-reference iterators satisfy the same contract; empty input gives empty output.',
-    'assumptions': [PARAM, FM_NOTE, 'bounded (Kani wiring): number of pieces N <= 4',
+    'assumptions': [PARAM, FM_NOTE, 'bounded (Kani wiring): number of pieces N <= 4 and N = 20 (integral; thorough also indefinite and the by-value iterator); iterators consumed with collect and with nth',
                     'u_segment models `Translate` with `Evaluate` as a supertrait (in /repo the two traits are independent; every type implementing Translate also implements Evaluate) and states its contract through '
                     'a spec relation shifted_by + trait lemma (value raised by c at every point of the domain); the concrete piece types discharge indefinite/translate/evaluate in C07, C09, C14, C01',
                     'that each concrete piece type integrates to an antiderivative through its knot is C07 (polynomials) and C09 (log-polynomials)',
@@ -213,7 +213,7 @@ PROPS['C12'] = {
                    'argument sequence, output k is the piece direct evaluation selects for the running maximum, evaluated at argument k itself, produced '
                    'after exactly k+1 inputs were pulled; for non-decreasing arguments that piece is the one pointwise evaluation selects. Bounded in N and K '
                    '(the cursor lives inside the returned closure, so no invariant can be attached to it).',
-    'assumptions': [PARAM, 'bounded: (N segments, K arguments) in {(1..4,3), (5,2), (6,2)} (quick); plus (3,4), (4,4), (8,2) (thorough)'],
+    'assumptions': [PARAM, 'bounded: (N segments, K arguments) in {(1..4,3), (5,2), (6,2)} with symbolic breakpoints and (24,2), (17,3) on the concrete breakpoint grid 0,0,1,1,2,.. with an exact size hint (quick); plus (3,4), (4,4), (8,2), (12,2) (thorough)'],
 }
 
 
@@ -275,7 +275,7 @@ PROPS['C15'] = {
     'explanation': 'Kani harnesses on the real Piecewise::{mul, mul_assign, neg, translate} and the Segment-level operations with recording OpTag pieces: '
                    'number of pieces, order and every breakpoint (any f64 bits) unchanged; every piece received the operation exactly once with the given '
                    'scalar and nothing else. Segment level is loop-free (complete); Piecewise level bounded in N.',
-    'assumptions': [PARAM, 'bounded: N <= 4 pieces for the Piecewise-level loops',
+    'assumptions': [PARAM, 'bounded: N <= 4 and N = 20 pieces for the Piecewise-level loops (recording pieces); real Poly1 pieces N = 3 (neg) / N = 2 (translate); thorough also N = 5, 8',
                     'that the operation on each concrete piece type acts pointwise is C14'],
 }
 
@@ -362,7 +362,7 @@ PROPS['C04'] = {
                    'compiled crate: one cubic per interval, cubic i built from knots i, i+1 and slopes f_i, f_{i+1}; interior f_i = f_dx(k_{i-1}, k_i, k_{i+1}); end slopes '
                    '= 3/2 * end secant - 1/2 * neighbouring slope (bit-equal to the property\'s formula). Together: interpolation, C1 joins with the harmonic-mean slope.',
     'assumptions': [FM_NOTE, FM_BITS, TY_NOTE, Z3W,
-                    'bounded (Kani wiring): 3..5 knots (quick) / 3..6 (thorough), coordinates in 0..15; the numeric kernels are stubbed there and proved separately by Verus',
+                    'bounded (Kani wiring): 3..5 knots with coordinates in 0..15, 12 and 20 knots with abscissae 0..N-1 and ordinates in 0..15 (quick: right/12, left/20; thorough: 3..6 and both sides of 12, 20); the numeric kernels are stubbed there and proved separately by Verus',
                     'UNCHECKED: the floating-point deviation bound (small multiple of 2^-53 scaled by the conditioning (|x|/dx)^3) - exact arithmetic only'],
 }
 PROPS['C05'] = {
